@@ -151,4 +151,29 @@ Section SERVER.
   (* the whole life of a server: AddRoutes for every group, Start (binding), requests *)
   Definition run_server (limit : Z) (gs : list group) (qs : list sreq) : bool * list sout :=
     let '(tab, ok) := bind gs [] in (ok, serve_all limit tab [] qs).
+
+  (* rest.WithCors / WithCorsHeaders / WithCustomCors (rest/server.go, rest/internal/cors):
+     the router is wrapped by corsRouter, whose middleware answers EVERY request of method
+     OPTIONS with 204 before any routing (no route, no gate, no handler), and the router's
+     not-allowed handler becomes cors.NotAllowedHandler: a path bound for another method
+     answers 404 instead of 405.  Without the option ([cors] = false) nothing changes:
+     OPTIONS is an ordinary route method. *)
+  Definition serve_cors (cors : bool) (limit : Z) (tab : list bound) (st : jstate) (q : sreq) : jstate * sout :=
+    if cors then
+      if r_method (q_cs q) =? m_options then (st, mkSout (mkHout false 204 [] [] false) None 0)
+      else
+        match find_bound (q_route q) tab with
+        | Some b => serve_bound limit b st q
+        | None => (st, mkSout (mkHout false 404 [] [] false) None 0)
+        end
+    else serve limit tab st q.
+
+  Fixpoint serve_all_cors (cors : bool) (limit : Z) (tab : list bound) (st : jstate) (qs : list sreq) : list sout :=
+    match qs with
+    | [] => []
+    | q :: qs' => let '(st', o) := serve_cors cors limit tab st q in o :: serve_all_cors cors limit tab st' qs'
+    end.
+
+  Definition run_server_cors (cors : bool) (limit : Z) (gs : list group) (qs : list sreq) : bool * list sout :=
+    let '(tab, ok) := bind gs [] in (ok, serve_all_cors cors limit tab [] qs).
 End SERVER.
